@@ -62,7 +62,8 @@ def changed_files():
 
 class Ctx:
     def __init__(self, prop, tier, seed):
-        self.prop, self.tier, self.seed = prop, tier, seed
+        # generators take the seed as a Go int64 and add small offsets: keep it in a safe range
+        self.prop, self.tier, self.seed_given, self.seed = prop, tier, seed, seed % 2000000011
         self.t0 = time.time()
         self.obligations = []        # (name, ok, detail)
         self.corr = {}               # name -> stats
@@ -74,6 +75,8 @@ class Ctx:
         self.known_lines = []
         self.scratch = None
         self.changed = changed_files()
+        self.oblige('inputs located: tree under test hashed and compared with baseline/repo_files.json', os.path.isdir(REPO),
+                    f'{REPO}: {len(self.changed)} file(s) differ from the validated baseline')
         if self.changed:
             self.assumptions.append(f'the tree under test differs from the validated baseline (baseline/repo_files.json) in {len(self.changed)} file(s): {", ".join(self.changed[:8])}; numeric knobs of the quick tier widened fourfold')
 
@@ -406,6 +409,13 @@ def corr(ctx, name, go_cmd, go_args, driver_args, timeout=3600, only=None, const
     if len(got) != len(lines):
         raise RuntimeError(f'driver answered {len(got)} lines for {len(lines)} cases')
     mism = const_mism + [(i, lines[i], expect[i], got[i]) for i in range(len(lines)) if expect[i] != got[i]]
+    n_const = sum(v['cases'] for k, v in ctx.corr.items() if k.startswith(name + ':'))
+    if not lines and not n_const:
+        raise TieBroken(f'T-corr {name}', f'harness {go_cmd} {go_args} produced no case at all: {(g.stderr or "")[-500:]}')
+    if g.returncode != 0 and not mism:
+        # an accepted non-zero status means the harness's own cross-checks failed; if the line-by-line
+        # comparison shows nothing, the failure must not go unnoticed
+        raise TieBroken(f'T-corr {name}', f'harness {go_cmd} exited {g.returncode} (its internal cross-checks failed) although every line agrees with the model: {(g.stderr or "")[-1500:]}')
     stats = {}
     for sl in g.stderr.strip().split('\n'):
         sl = sl.strip()
@@ -461,8 +471,13 @@ def write_evidence(ctx, violations):
         if k not in ('rule', 'explanation', 'extra_evaluations', 'extra_distinct'):
             cov[k] = v
     if not cov['explanation']:
-        del cov['explanation']
-    ev = {'property_id': ctx.prop, 'tier': ctx.tier, 'seed': ctx.seed, 'level': ctx.level, 'coverage': cov,
+        if ctx.level == 'other':
+            cov['explanation'] = 'the run ended before the property module described itself; see obligation_list for what was checked and what failed'
+        else:
+            del cov['explanation']
+    if not cov['samples']:
+        cov['samples'] = [{'note': 'the run ended before any case was generated', 'obligations': ob}]
+    ev = {'property_id': ctx.prop, 'tier': ctx.tier, 'seed': ctx.seed_given, 'level': ctx.level, 'coverage': cov,
           'assumptions': ctx.assumptions, 'wall_s': round(time.time() - ctx.t0, 2), 'violations': violations}
     os.makedirs(os.path.join(ROOT, 'evidence'), exist_ok=True)
     with open(os.path.join(ROOT, 'evidence', f'{ctx.prop}.json'), 'w') as f:
